@@ -42,7 +42,7 @@ WATCH = {
     'DocumentTemplate/_DocumentTemplate.py': 'C02 C03 C04 C05 C08 C09 C19 C01 C14 C18',
     'DocumentTemplate/html_quote.py': 'C03 C19 C04',
     'DocumentTemplate/ustr.py': 'C19 C15',
-    'DocumentTemplate/security.py': 'C05',
+    'DocumentTemplate/security.py': 'C05 C14',
     'TreeDisplay/TreeTag.py': 'C20 C08 C05 C17',
 }
 
